@@ -181,7 +181,8 @@ func (dsc *dataStoreCommand) setKey(keyName, str string, options bitflags, expir
 			return
 		}
 
-		if flagHasOne(options, SET_KEEP_TTL) {
+		if flagHasOne(options, SET_KEEP_TTL) || flagHasOne(options, SET_APPEND) {
+			// APPEND modifies the value in place: the deadline stays
 			expiration = time.Time(oldSk.expiresAt)
 		}
 
